@@ -121,6 +121,11 @@ func VerifHarness_C13_capacity() {
 	for n := 0; n < N; n++ {
 		ns := "n" + strconv.Itoa(n)
 		node := &v1.Node{ObjectMeta: metav1.ObjectMeta{Name: ns}}
+		// what the machine has (status.capacity) is not what pods may use: it never counts
+		node.Status.Capacity = v1.ResourceList{
+			v1.ResourceCPU:    *resource.NewMilliQuantity(64000, resource.DecimalSI),
+			v1.ResourceMemory: *resource.NewQuantity(1<<38, resource.BinarySI),
+		}
 		if verifChoice(ns+".hasAllocatable", 2) == 1 {
 			rl, cpu, mem := symRequests(ns+".alloc", forms == 1)
 			node.Status.Allocatable = rl
